@@ -61,7 +61,15 @@ def header_lines(p):
     st = p.get('numfmt', 'plain')
     f = lambda x: fnum(x, st)
     L = []
-    L.append('VERS ' + p.get('vers', '171115 258 36214'))
+    lead = p.get('lead', 'vers')       # what the FIRST line of the file is: VERS (usual), MODE (no VERS line), or the aperture
+    typ, val = p['aperture']
+    apline = {'ENPD': 'ENPD ' + f(val), 'FNUM': 'FNUM ' + f(val) + ' 0', 'OBNA': 'OBNA ' + f(val) + ' 0'}.get(typ)
+    if apline is None:
+        raise ValueError(typ)
+    if lead == 'aperture':
+        L.append(apline)
+    if lead == 'vers':
+        L.append('VERS ' + p.get('vers', '171115 258 36214'))
     L.append('MODE ' + p.get('mode', 'SEQ'))
     L.append('NAME ' + p.get('name', ''))
     for i, note in enumerate(p.get('notes', [])):
@@ -69,15 +77,8 @@ def header_lines(p):
     L.append('PFIL 0 0 0')
     L.append('LANG 0')
     L.append('UNIT MM X W X CM MR CPMM')
-    typ, val = p['aperture']
-    if typ == 'ENPD':
-        L.append('ENPD ' + f(val))
-    elif typ == 'FNUM':
-        L.append('FNUM ' + f(val) + ' 0')
-    elif typ == 'OBNA':
-        L.append('OBNA ' + f(val) + ' 0')
-    else:
-        raise ValueError(typ)
+    if lead != 'aperture':
+        L.append(apline)
     L.append('ENVD 20 1 0')
     L.append('GFAC 0 0')
     L.append('GCAT ' + ' '.join(p.get('gcat', ['SCHOTT'])) + (' ' if len(p.get('gcat', [])) > 1 else ''))
